@@ -354,6 +354,9 @@ impl Engine for ArenaEngine {
     fn rule(&self) -> String {
         rule_text(self.prop)
     }
+    fn fuzz(&self) -> Option<FuzzSpec> {
+        Some(FuzzSpec { target: "fz_arena", max_len: 8 + 4 * 80, target_prefix: vec![], engine_prefix: vec![] })
+    }
     fn sweep(&self, tier: Tier, idx: u32, nworkers: u32) -> Option<SweepOut> {
         if self.prop != "C01" && self.prop != "C04" {
             return None;
